@@ -123,7 +123,8 @@ def board_tl(length, width, variant, seed):
     moves, rewards, loose = rg.gen_rnd_board(seed, length, width, 0.3, 6, seed % 2 == 1)
     with tempfile.TemporaryDirectory(prefix="verif-c07-") as d:
         path = os.path.join(d, "board.py")
-        rg.write_robots(path, length, width, moves, rewards, loose, 0.1, 0.1, 0.1)
+        rg.write_robots(file_name=path, length=length, width=width, moves=moves, rewards=rewards, loose_tiles=loose,
+                         prob_tile_break=0.1, prob_robot_break=0.1, prob_light_break=0.1)
         game = cr.read_dict_from_file(path)["game_" + variant]
     return game["transition_list"], game["final_states"]
 
